@@ -11,7 +11,7 @@ pub fn is_glob(s: &str) -> bool {
 
 pub fn convert_glob_to_pattern(s: &str) -> String {
     let string = s.to_string();
-    let regex = Regex::new("(\\?|\\.|\\*|\\[|\\]|\\(|\\)|\\^|\\$)").unwrap();
+    let regex = Regex::new("(\\?|\\.|\\*|\\[|\\]|\\(|\\)|\\^|\\$|\\+|\\{|\\}|\\||\\\\)").unwrap();
     let string = regex.replace_all(&string, |c: &Captures| {
         match c.index(0) {
             "." => "\\.",
@@ -23,6 +23,11 @@ pub fn convert_glob_to_pattern(s: &str) -> String {
             ")" => "\\)",
             "^" => "\\^",
             "$" => "\\$",
+            "+" => "\\+",
+            "{" => "\\{",
+            "}" => "\\}",
+            "|" => "\\|",
+            "\\" => "\\\\",
             _ => error_exit("Error parsing glob expression", s),
         }
         .to_string()
@@ -33,12 +38,12 @@ pub fn convert_glob_to_pattern(s: &str) -> String {
 
 pub fn convert_like_to_pattern(s: &str) -> String {
     let string = s.to_string();
-    let regex = Regex::new("(%|_|\\?|\\.|\\*|\\[|\\]|\\(|\\)|\\^|\\$)").unwrap();
+    let regex = Regex::new("(%|_|\\?|\\.|\\*|\\[|\\]|\\(|\\)|\\^|\\$|\\+|\\{|\\}|\\||\\\\)").unwrap();
     let string = regex.replace_all(&string, |c: &Captures| {
         match c.index(0) {
             "%" => ".*",
             "_" => ".",
-            "?" => ".?",
+            "?" => "\\?",
             "." => "\\.",
             "*" => "\\*",
             "[" => "\\[",
@@ -47,6 +52,11 @@ pub fn convert_like_to_pattern(s: &str) -> String {
             ")" => "\\)",
             "^" => "\\^",
             "$" => "\\$",
+            "+" => "\\+",
+            "{" => "\\{",
+            "}" => "\\}",
+            "|" => "\\|",
+            "\\" => "\\\\",
             _ => error_exit("Error parsing LIKE expression", s),
         }
         .to_string()
